@@ -1535,6 +1535,29 @@ func (c *compiler) compileTermSuffix(e *Term, s *Suffix) error {
 	} else if s.Optional {
 		if len(e.SuffixList) > 0 {
 			if u := e.SuffixList[len(e.SuffixList)-1].toTerm(); u != nil {
+				if i := u.Index; i != nil && (i.Start != nil || i.End != nil ||
+					i.Str != nil && i.Str.Queries != nil) {
+					// The queries in the index refer to the input of the whole term,
+					// not to the value being indexed; .a[.i]? == . as $v | .a | .[$v|.i]?
+					name := "$%" + strconv.Itoa(len(c.codes))
+					c.append(&code{op: opdup})
+					c.append(&code{op: opstore, v: c.pushVariable(name)})
+					wrap := func(q *Query) *Query {
+						if q == nil {
+							return nil
+						}
+						return &Query{
+							Left:  &Query{Term: &Term{Type: TermTypeFunc, Func: &Func{Name: name}}},
+							Op:    OpPipe,
+							Right: q,
+						}
+					}
+					j := &Index{Start: wrap(i.Start), End: wrap(i.End), IsSlice: i.IsSlice}
+					if i.Str != nil {
+						j.Start = wrap(&Query{Term: &Term{Type: TermTypeString, Str: i.Str}})
+					}
+					u = &Term{Type: TermTypeIndex, Index: j}
+				}
 				// no need to clone (ref: compileTerm)
 				e.SuffixList = e.SuffixList[:len(e.SuffixList)-1]
 				if err := c.compileTerm(e); err != nil {
